@@ -644,20 +644,17 @@ impl<T: PPGEvaluatorStrategy> PPGEvaluator<T> {
         jobs: &[NodeInfo],
         job_idx: NodeIndex,
     ) -> bool {
-        match jobs[job_idx as usize].state {
-            JobState::Ephemeral(_) => {}
-            JobState::Always(_) | JobState::Output(_) => {
-                //    debug!("was not ephemeral {}", &self.jobs[job_idx as usize].job_id);
-                return false;
+        // explicit stack instead of recursion: ephemeral chains can be arbitrarily long
+        let mut todo = vec![job_idx];
+        while let Some(idx) = todo.pop() {
+            match jobs[idx as usize].state {
+                JobState::Ephemeral(_) => {}
+                JobState::Always(_) | JobState::Output(_) => {
+                    //    debug!("was not ephemeral {}", &self.jobs[job_idx as usize].job_id);
+                    return false;
+                }
             }
-        }
-        let downstreams: Vec<_> = dag
-            .neighbors_directed(job_idx, Direction::Outgoing)
-            .collect();
-        for ds_id in downstreams {
-            if !Self::_job_and_downstreams_are_ephemeral(dag, jobs, ds_id) {
-                return false;
-            }
+            todo.extend(dag.neighbors_directed(idx, Direction::Outgoing));
         }
         true
     }
